@@ -122,6 +122,29 @@ def scenarios():
               create(0, 1, [0], 2, 0, 1) + recv_k(3, 4, [1, 2]) + create(5, 6, [3], 7, 0, 1) + wall(5, 1) + wall(3, 2) + wall(0, 1)}],
               "requests": [req(0, "create", "K", 1, 0, [0]), req(0, "recv", "K", 2, 3, [1, 2]), req(0, "create", "K", 1, 5, [3])],
               "streams": [{"key": [1, 0, "create"], "responses": K(2, [1, 2])}, {"key": [1, 0, "recv"], "responses": K(2)}]})
+    # 12. create requests whose result arrays are larger than their number of pairs needs (hand-written subroutine)
+    S.append({"name": "create-oversized-result-arrays", "apps": [{"app": 0, "unit": 3, "text":
+              arr(0, 30) + arr(2, 20) + stores(2, [0, 1]) + arr(1, 1) + stores(1, [0]) + "create_epr(1,0) 1 2 0\n" +
+              arr(5, 20) + arr(7, 20) + stores(7, [0, 1]) + arr(6, 1) + stores(6, [1]) + "create_epr(1,0) 6 7 5\n" +
+              "wait_all @0[0:10]\nwait_all @5[0:10]\n"}],
+              "requests": [req(0, "create", "K", 1, 0, [0]), req(0, "create", "K", 1, 5, [1])],
+              "streams": [{"key": [1, 0, "create"], "responses": K(2, [1, 2])}], "array_prefix_only": True})
+    # 13. a keep-response of the receive role deferred on a busy qubit while create-role responses of the same socket arrive
+    S.append({"name": "deferred-recv-keep-vs-create-measure", "apps": [{"app": 0, "unit": 2, "text":
+              "set Q0 0\nqalloc Q0\n" + recv_k(0, 1, [0]) + create(2, 3, None, 4, 1, 2) + wall(2, 2) + "set Q0 0\nqfree Q0\n" + wall(0, 1)}],
+              "requests": [req(0, "recv", "K", 1, 0, [0]), req(0, "create", "M", 2, 2)],
+              "streams": [{"key": [1, 0, "recv"], "responses": K(1)}, {"key": [1, 0, "create"], "responses": M(2)}]})
+    # 14. the mirror image: create-keep deferred, receive-measure responses behind it
+    S.append({"name": "deferred-create-keep-vs-recv-measure", "apps": [{"app": 0, "unit": 2, "text":
+              "set Q0 1\nqalloc Q0\n" + create(0, 1, [1], 2, 0, 1) + recv_m(3, 2) + wall(3, 2) + "set Q0 1\nqfree Q0\n" + wall(0, 1)}],
+              "requests": [req(0, "create", "K", 1, 0, [1]), req(0, "recv", "M", 2, 3)],
+              "streams": [{"key": [1, 0, "create"], "responses": K(1)}, {"key": [1, 0, "recv"], "responses": M(2)}]})
+    # 15. two applications issuing receive requests on the SAME key: the oldest outstanding request (by issue order) is served first
+    S.append({"name": "two-apps-same-key", "apps": [
+        {"app": 0, "unit": 2, "text": recv_m(0, 1) + wall(0, 1)},
+        {"app": 1, "unit": 2, "text": recv_m(0, 2) + wall(0, 2)}],
+        "requests": [req(0, "recv", "M", 1, 0), req(1, "recv", "M", 2, 0)],
+        "streams": [{"key": [1, 0, "recv"], "responses": M(3)}]})
     return S
 
 
